@@ -862,3 +862,43 @@ Definition defaults_explicit (d : definition) : bool :=
   | LHeader => match d_type d with TObject => given (d_explode d) | _ => true end
   | LCookie => true
   end.
+
+(* ------------------------------------------------------------------------------------------------ *)
+(* 12. RequestsTransport.serialize_case (transport/requests.py:58-66): the query sent is case.query   *)
+(*     where, if some value equals the empty dict, a clone is made in which exactly those values      *)
+(*     are replaced by the empty string                                                               *)
+(* ------------------------------------------------------------------------------------------------ *)
+Definition is_empty_obj (v : value) : bool := match v with VObj [] => true | _ => false end.
+Definition requests_params (q : item) : item :=
+  if existsb (fun kv => is_empty_obj (snd kv)) q
+  then map (fun kv => if is_empty_obj (snd kv) then (fst kv, sval []) else kv) q
+  else q.
+(* what the rule is meant to be: entry by entry *)
+Definition blank_empty_obj (kv : str * value) : str * value :=
+  (fst kv, if is_empty_obj (snd kv) then sval [] else snd kv).
+
+(* ------------------------------------------------------------------------------------------------ *)
+(* 13. coverage phase: Template._serialize on the path container (generation/hypothesis/builder.py:   *)
+(*     305-320).  kwargs is a SHALLOW copy of the template, the serializer and quote_all assign into   *)
+(*     the dict they are given: the template itself keeps the serialized and quoted values, and the   *)
+(*     next coverage case starts from them.  _stringify_value builds a new dict (the output).         *)
+(* ------------------------------------------------------------------------------------------------ *)
+Definition stringify_v (v : value) : value :=
+  match v with
+  | VPrim p => sval (js_str p)
+  | VArr l => sval (join [44] (map js_str l))
+  | VObj l => VObj (map (fun kv => (fst kv, PStr (js_str (snd kv)))) l)
+  end.
+Definition template_step (defs : list definition) (tmpl : item) : option (item * item) :=
+  obind (serialize3 defs tmpl)
+    (fun t1 => obind (quote_all t1)
+      (fun t2 => Some (t2, map (fun kv => (fst kv, stringify_v (snd kv))) t2))).
+(* path_parameters of the (n+1)-th case built from one template *)
+Fixpoint template_nth (defs : list definition) (n : nat) (tmpl : item) : option item :=
+  match template_step defs tmpl with
+  | None => None
+  | Some (t', out) => match n with O => Some out | S m => template_nth defs m t' end
+  end.
+(* values that quote_all leaves alone *)
+Definition quote_stable (s : str) : bool :=
+  forallb always_safe s && negb (str_eqb s [46]) && negb (str_eqb s [46; 46]).
